@@ -324,10 +324,13 @@ func (e *Enc) script(timeoutMs int) (string, []*Obligation) {
 		obs = append(obs, it.ob)
 		b.WriteString("(push 1)\n")
 		if it.ob.Kind == "cover" {
+			// vacuity check: a contradiction among the assumptions shows up quickly as unsat; with quantified
+			// assumptions a satisfiable answer may never come, so the query gets a short budget
 			b.WriteString("(assert " + it.ob.Goal + ")\n")
-		} else {
-			b.WriteString("(assert (not " + it.ob.Goal + "))\n")
+			b.WriteString("(set-option :timeout 1500)\n(check-sat)\n(set-option :timeout " + fmt.Sprint(timeoutMs) + ")\n(pop 1)\n")
+			continue
 		}
+		b.WriteString("(assert (not " + it.ob.Goal + "))\n")
 		b.WriteString("(check-sat)\n(pop 1)\n")
 	}
 	return b.String(), obs
@@ -432,6 +435,10 @@ func (f *frame) frameObligations(ct *Contract, entry *State) {
 						}
 					}
 				}
+			}
+			if n == "GV_hstate" && e.declared["glob_crypto_rand_Reader"] {
+				// drawing from the system random source advances its (ghost) stream position: never a frame violation
+				excl += " (not (= fr (ival (select " + e.H(entry, "P_Iface", "(Array Int Iface)") + " glob_crypto_rand_Reader))))"
 			}
 			e.declFun("owner", []string{"Int"}, "Int")
 			goal := "(forall ((fr Int)) (=> (and (<= (owner fr) " + w0 + ")" + excl + ") (= (select " + h1 + " fr) (select " + h0 + " fr))))"
